@@ -89,6 +89,11 @@ type Session interface {
 	// action call, ANOTHER parser object of the same package parses inner
 	// completely. The observation is that of the outer parse only.
 	ParseNested(toks []PTok, nestAt int, inner []PTok) ParseObs
+	// ParseSwitchCtx is Parse(toks, -1, false) during which, inside the k-th
+	// action call, the parser's Context field is replaced by a second context
+	// object. The observation's Log is the calls of both contexts in order;
+	// inSecond is how many of them the second object received.
+	ParseSwitchCtx(toks []PTok, k int) (obs ParseObs, inSecond int)
 }
 
 type Parser interface {
